@@ -53,7 +53,8 @@ ManyRes(c, keys, withcas) ==
   IF keys = <<>> THEN <<>>
   ELSE LET k == Head(keys)
            rest == ManyRes(c, Tail(keys), withcas)
-       IN IF Live(c, k)
+       (* a key named more than once is still returned once *)
+       IN IF Live(c, k) /\ ~\E i \in DOMAIN Tail(keys) : Tail(keys)[i] = k
             THEN <<(<<k, IF withcas THEN GetsRes(c, k) ELSE Val(c.st[k].v)>>)>> \o rest
             ELSE rest
 
